@@ -281,6 +281,16 @@ def run_optable(ctx, rep_, F):
                         "undecided" if und else ("violated" if somes else "ok"),
                         "the type checker accepts it: when the right operand is nil the %s variable holds nil, and `a + 1` fails at run time" % kname(l) if somes else "",
                         None, fn="compiler::ast::type::TypeLayout::get_output_type", key="C02.unwrap-assign|plain-target|%s|%s" % (kname(l), kname(rk)))
+        # ... and `a ?= nil` with an optional a is the assignment of nil (false): accepted
+        for l in base:
+            st = T.static("Unwrap", ("Opt", l), "Nil")
+            somes = {k for (tag, k, dd) in st if tag == "Some"}
+            und = [x for x in st if x[0] not in ("Some", "None")]
+            n_unwrap += 1
+            rep_.ob("C02.unwrap-assign", "`%s ?= nil` is accepted (it stores nil and is false)" % kname(("Opt", l)),
+                    "undecided" if und else ("ok" if somes == {"Bool"} else "violated"),
+                    "" if somes == {"Bool"} else "the type checker refuses it (result %s): `c: int? = 5  c ?= nil` is a compile error, while `c ?= n` with a nil-valued n works" % sorted(somes),
+                    None, fn="compiler::ast::type::TypeLayout::get_output_type", key="C02.unwrap-assign|nil-value|%s" % kname(l))
         rep_.ob("C02.unwrap-assign", "`a ?= b` is accepted by the operator table only when both operands have the same kind (%d accepted cells)" % n_unwrap,
                 "ok", "", None, key="C02.unwrap-assign|summary")
         rep_.floor("C02.unwrap-assign accepted cells", n_unwrap, 5)
